@@ -375,6 +375,12 @@ def c12(tier, rng, fam='C12'):
                 b.q()
                 b.step('inj', dir='c2s', env=env(7, m='/verif.Svc/Unary', b='probe', src='cliX', dst='srv', c=99))
                 out.append(b.q().done())
+    # the same envelope shape many times in a row (more often than the server has unary workers): nothing a
+    # peer repeats may use the server up
+    for name in A:
+        for n in ((9, 17) if tier == 'quick' else (8, 9, 10, 17, 40)):
+            out.append(scn([(name, 1 + (k % 2 if name not in ('s_body', 's_rawbody') else 0)) for k in range(n)],
+                           'repeat %s x%d' % (name, n)))
     for s in syms:
         out.append(scn([s], '1: %s/%d' % s))
     pairs = list(itertools.product(syms, syms))
